@@ -36,25 +36,13 @@ from dulwich.repo import Repo  # noqa: E402
 UP = ("u1", "u2", "u3", "u4")
 CONTENT = {"A": b"A\n", "B": b"B\n"}
 RCONTENT = {v: k for k, v in CONTENT.items()}
-TOKENS = {"{ZWNJ}": b"\xe2\x80\x8c", "{FF}": b"\xff\xfe", "{BS}": b"\\"}
 MODES = {"644": 0o100644, "755": 0o100755, "odd": 0o106777, "oddnx": 0o104666}
 IDENT = b"C17 <c17@example.invalid>"
 # files below .git that the operations legitimately write; everything else in .git is protected
 GIT_LEGIT = ("index", "index.lock", "HEAD", "ORIG_HEAD", "refs", "logs", "objects", "packed-refs")
 
 
-def comp_bytes(tok: str) -> bytes:
-    b = tok.encode("utf-8")
-    for k, v in TOKENS.items():
-        b = b.replace(k.encode(), v)
-    return b
-
-
-def comp_token(b: bytes) -> str:
-    for k, v in TOKENS.items():
-        if k != "{BS}":
-            b = b.replace(v, k.encode())
-    return b.decode("utf-8", "backslashreplace")
+from .c17_lib import comp_bytes, comp_token  # noqa: E402
 
 
 class Case:
@@ -106,6 +94,9 @@ class Case:
         if self.repo is not None:
             self.repo.close()
             self.repo = None
+
+    def reopen(self):
+        self.repo = Repo(self.W)
 
     # ------------------------------------------------------------------ abstract -> real objects
     def raw_name(self, comps) -> bytes:
